@@ -32,6 +32,7 @@ Definition astep (w : aworld) (o : op) : aworld :=
              asess := update_nth sid a_clear_flags (asess w); ats := ats w |}
       | None => w
       end
+  | SaveFail _ => w
   | NewSession => with_sess w (asess w ++ [map (fun x => (fst x, snd x, false)) (afile w)])
   | Delete sid off => with_sess w (update_nth sid (fun l => adelete l off) (asess w))
   | Clear sid => with_sess w (update_nth sid (fun _ => []) (asess w))
